@@ -722,9 +722,9 @@ class HTTPConnectionPool(ConnectionPool, RequestMethods):
         if url.startswith("/"):
             url = to_str(_encode_target(url))
         else:
-            # The fragment is never part of a request target (absolute-form
-            # included), just like _encode_target() drops it for origin-form.
-            url = to_str(parsed_url._replace(fragment=None).url)
+            # Neither the fragment nor the userinfo is part of a request target
+            # (absolute-form included); _encode_target() cannot see either.
+            url = to_str(parsed_url._replace(fragment=None, auth=None).url)
 
         conn = None
 
